@@ -12,12 +12,155 @@ import (
 type msgSeg struct {
 	Flag string // "" = unconditional
 	Src  *Term
+	// Appender: the segment is added by a verified append-and-pad helper f(dst, src, width) (Src is then the
+	// synthetic call f(src, width) of the padding it performs)
+	Appender *ssa.Function
+}
+
+// appendStep: t is `base` extended by one segment — append(base, seg...) or appendPad(base, src, width).
+func appendStep(tb *TB, t *Term) (base *Term, seg msgSeg, ok bool) {
+	if t.Op != "call" {
+		return nil, msgSeg{}, false
+	}
+	if t.Sym == "builtin.append" && len(t.Args) == 2 {
+		return t.Args[0], msgSeg{Src: t.Args[1]}, true
+	}
+	if cl, isCall := t.Val.(*ssa.Call); isCall && tb != nil && len(t.Args) == 3 {
+		if f := cl.Call.StaticCallee(); f != nil && tb.W.InModule(f) && appendPadHelper(tb, f) == "" {
+			return t.Args[0], msgSeg{Src: &Term{Op: "call", Sym: t.Sym, Args: t.Args[1:], Val: t.Val}, Appender: f}, true
+		}
+	}
+	return nil, msgSeg{}, false
+}
+
+// appendPadHelper: f(dst, src, width) returns dst followed by exactly `width` bytes — src[:width] when src is at
+// least that long, else src followed by zero bytes up to the width — by appends only. "" when it does.
+func appendPadHelper(tb *TB, f *ssa.Function) string {
+	if f == nil || f.Blocks == nil || len(f.Params) != 3 {
+		return "not a function of (dst, src, width)"
+	}
+	if r, ok := tb.padAppenders[f]; ok {
+		return r
+	}
+	if tb.padAppenders == nil {
+		tb.padAppenders = map[*ssa.Function]string{}
+	}
+	why := appendPadHelper1(tb, f)
+	tb.padAppenders[f] = why
+	return why
+}
+
+func appendPadHelper1(tb *TB, f *ssa.Function) string {
+	P := func(i int) string { return fmt.Sprintf("param(%s#%d)", FuncName(f), i) }
+	res := tb.Results(f, nil, nil, 0)
+	if len(res) != 1 {
+		return "does not return one value"
+	}
+	// only appends, length tests and re-slicing; the only stores fill the one-byte literal of append(dst, 0)
+	bad := ""
+	EachInstr(f, func(in ssa.Instruction) {
+		switch x := in.(type) {
+		case *ssa.Call:
+			if n := CalleeName(x.Common()); n != "builtin.append" && n != "builtin.len" {
+				bad = "calls " + n
+			}
+		case *ssa.Store:
+			ia, ok := x.Addr.(*ssa.IndexAddr)
+			if !ok {
+				bad = "stores outside an append literal"
+				return
+			}
+			if al, ok := ia.X.(*ssa.Alloc); !ok || !strings.HasPrefix(al.Type().String(), "*[1]") {
+				bad = "stores outside an append literal"
+			}
+		case *ssa.Go, *ssa.Defer, *ssa.MapUpdate, *ssa.Send, *ssa.Panic:
+			bad = "has other effects"
+		}
+	})
+	if bad != "" {
+		return bad
+	}
+	alts := res[0].Alts()
+	var first, loop *Term
+	for _, a := range alts {
+		if a.Op != "call" || a.Sym != "builtin.append" || len(a.Args) != 2 {
+			return "a result is not an append: " + clip(a.String(), 100)
+		}
+		switch {
+		case a.Args[0].String() == P(0) && first == nil:
+			first = a
+		case a.Args[0].Op == "cycle" && loop == nil:
+			loop = a
+		default:
+			return "the result is not dst extended by appends: " + clip(a.String(), 100)
+		}
+	}
+	if first == nil {
+		return "the data is not appended to dst"
+	}
+	// the data: src cut to the width
+	src := first.Args[1]
+	srcOK := false
+	if src.Op == "ite" && src.Args[0].Op == "bin" && len(src.Args[0].Args) == 2 {
+		cut := fmt.Sprintf("slice(%s; none; %s; none)", P(1), P(2))
+		cut0 := fmt.Sprintf("slice(%s; const(0); %s; none)", P(1), P(2))
+		cnd := src.Args[0]
+		op := tokenOf(cnd.Sym)
+		x, y := cnd.Args[0].String(), cnd.Args[1].String()
+		if x == P(2) && y == "len("+P(1)+")" {
+			x, y = y, x
+			op = flipOp(op)
+		}
+		if x == "len("+P(1)+")" && y == P(2) {
+			th, el := src.Args[1].String(), src.Args[2].String()
+			isCut := func(s string) bool { return s == cut || s == cut0 }
+			switch op {
+			case token.GTR, token.GEQ:
+				srcOK = isCut(th) && el == P(1)
+			case token.LSS, token.LEQ:
+				srcOK = th == P(1) && isCut(el)
+			}
+		}
+	}
+	if !srcOK {
+		return "the appended data is " + clip(src.String(), 140) + ", not src cut to the width (src[:width] when longer)"
+	}
+	if loop == nil {
+		return "shorter inputs are not padded"
+	}
+	if !isZeroByteSlice(tb, loop.Args[1]) {
+		return "the padding appended per round is not one zero byte"
+	}
+	// exactly width − len(data) rounds: n from len(data) while n < width, n++ ; or the remaining count down to 0
+	conds := 0
+	okLoop := false
+	EachInstr(f, func(in ssa.Instruction) {
+		iff, isIf := in.(*ssa.If)
+		if !isIf {
+			return
+		}
+		ct := tb.Of(iff.Cond)
+		if !strings.Contains(ct.String(), "cycle(") {
+			return
+		}
+		conds++
+		switch normT(ct) {
+		case "bin(<; phi(bin(+; const(1); cycle(*)); len(" + src.String() + ")); " + P(2) + ")",
+			"bin(>; " + P(2) + "; phi(bin(+; const(1); cycle(*)); len(" + src.String() + ")))":
+			okLoop = true
+		}
+	})
+	if conds != 1 || !okLoop {
+		return "the padding loop does not run exactly width − len(data) times"
+	}
+	return ""
 }
 
 // parseLayout linearises the append chain of the OCRA message (engine H): first segment first.
 func parseLayout(tb *TB, t *Term) ([]msgSeg, string) {
 	var rev []msgSeg
 	for i := 0; i < 64; i++ {
+		base, seg, isStep := appendStep(tb, t)
 		switch {
 		case t.Op == "slice" && t.Args[2].IsConst() && t.Args[2].Sym == "0":
 			out := make([]msgSeg, len(rev))
@@ -25,16 +168,18 @@ func parseLayout(tb *TB, t *Term) ([]msgSeg, string) {
 				out[len(rev)-1-k] = rev[k]
 			}
 			return out, ""
-		case t.Op == "call" && t.Sym == "builtin.append" && len(t.Args) == 2:
-			rev = append(rev, msgSeg{"", t.Args[1]})
-			t = t.Args[0]
+		case isStep:
+			rev = append(rev, seg)
+			t = base
 		case t.Op == "ite":
 			a, b := t.Args[1], t.Args[2]
-			if a.Op == "call" && a.Sym == "builtin.append" && len(a.Args) == 2 && a.Args[0].String() == b.String() {
-				rev = append(rev, msgSeg{t.Args[0].String(), a.Args[1]})
+			if ba, sa, ok := appendStep(tb, a); ok && ba.String() == b.String() {
+				sa.Flag = t.Args[0].String()
+				rev = append(rev, sa)
 				t = b
-			} else if b.Op == "call" && b.Sym == "builtin.append" && len(b.Args) == 2 && b.Args[0].String() == a.String() {
-				rev = append(rev, msgSeg{"!" + t.Args[0].String(), b.Args[1]})
+			} else if bb, sb, ok := appendStep(tb, b); ok && bb.String() == a.String() {
+				sb.Flag = "!" + t.Args[0].String()
+				rev = append(rev, sb)
 				t = a
 			} else {
 				return nil, "a conditional step of the message is not 'append one segment under one flag': " + clip(t.Args[0].String(), 120)
@@ -302,6 +447,13 @@ func runC05(c *Check, w *World) {
 		// R05.2 every padding helper used in the layout
 		seen := map[*ssa.Function]bool{}
 		for _, sg := range segs {
+			if sg.Appender != nil {
+				if !seen[sg.Appender] {
+					seen[sg.Appender] = true
+					c.OK("R05.2", FuncName(sg.Appender), "pad-helper", "appends exactly `width` bytes to its first argument: src[:width], or src followed by zero bytes up to the width (one zero byte per round, width − len rounds)", w.Pos(sg.Appender.Pos()))
+				}
+				continue
+			}
 			if cl, ok := sg.Src.Val.(*ssa.Call); ok && sg.Src.Op == "call" {
 				if f := cl.Call.StaticCallee(); f != nil && w.InModule(f) && !seen[f] {
 					seen[f] = true
